@@ -35,10 +35,21 @@ pub fn install_hook() {
             if std::env::var_os("VERIF_DEBUG_PANICS").is_some() {
                 eprintln!("[panic] {} @ {}", msg, loc);
             }
-            LAST_PANIC.with(|p| *p.borrow_mut() = Some(format!("{} @ {}", msg, loc)));
+            // (try_with: the guard is also used while a thread's locals are being destroyed; the
+            // message then goes to a process-wide table)
+            let text = format!("{} @ {}", msg, loc);
+            if LAST_PANIC.try_with(|p| *p.borrow_mut() = Some(text.clone())).is_err() {
+                if let Ok(mut t) = LATE_PANICS.lock() {
+                    let me = std::thread::current().id();
+                    t.retain(|x| x.0 != me);
+                    t.push((me, text));
+                }
+            }
         }));
     });
 }
+
+static LATE_PANICS: std::sync::Mutex<Vec<(std::thread::ThreadId, String)>> = std::sync::Mutex::new(Vec::new());
 
 /// Runs `f`, turning a panic into Err(message @ file:line).
 pub fn guard<T>(f: impl FnOnce() -> T) -> Result<T, String> {
@@ -46,9 +57,48 @@ pub fn guard<T>(f: impl FnOnce() -> T) -> Result<T, String> {
     match panic::catch_unwind(AssertUnwindSafe(f)) {
         Ok(v) => Ok(v),
         Err(_) => Err(LAST_PANIC
-            .with(|p| p.borrow_mut().take())
+            .try_with(|p| p.borrow_mut().take())
+            .ok()
+            .flatten()
+            .or_else(|| {
+                let me = std::thread::current().id();
+                LATE_PANICS.lock().ok().and_then(|mut t| t.iter().position(|x| x.0 == me).map(|i| t.remove(i).1))
+            })
             .unwrap_or_else(|| "<panic without message>".into())),
     }
+}
+
+// ------------------------------------------------------------------ calling from a thread-local destructor
+struct Late(Option<Box<dyn FnOnce() + Send>>);
+impl Drop for Late {
+    fn drop(&mut self) {
+        if let Some(f) = self.0.take() {
+            let _ = panic::catch_unwind(AssertUnwindSafe(f));
+        }
+    }
+}
+thread_local! {
+    static LATE: RefCell<Option<Late>> = const { RefCell::new(None) };
+}
+
+/// Runs `warmup` on a fresh thread and then `late` from the destructor of a thread-local of that thread
+/// which was set up before `warmup` ran - so it runs while the thread exits, after every thread-local
+/// first used during `warmup` has already been destroyed (destructors run in reverse order). That is
+/// where a client's per-thread log, cache or statistics object flushes itself.
+/// None if the destructor did not run or did not finish.
+pub fn in_tls_destructor<R: Send + 'static>(warmup: impl FnOnce() + Send + 'static, late: impl FnOnce() -> R + Send + 'static) -> Option<R> {
+    install_hook();
+    let (tx, rx) = std::sync::mpsc::channel::<R>();
+    let h = std::thread::spawn(move || {
+        LATE.with(|l| {
+            *l.borrow_mut() = Some(Late(Some(Box::new(move || {
+                let _ = tx.send(late());
+            }))))
+        });
+        let _ = guard(warmup);
+    });
+    let _ = h.join();
+    rx.recv_timeout(std::time::Duration::from_secs(30)).ok()
 }
 
 
